@@ -581,3 +581,9 @@ def run(repo: Repo, rep: Report, tier: str) -> None:
     from .c13 import getattr_fold_rule
 
     getattr_fold_rule(repo, rep, "C20.R14")
+    from .c17 import one_list_rule
+
+    one_list_rule(repo, rep, "C20.R15")
+    from .c13 import resolve_rule
+
+    resolve_rule(repo, rep, "C20.R16")
